@@ -1,0 +1,27 @@
+//go:build verif
+
+package tcp
+
+import "sync/atomic"
+
+// verifSeqSource, when set, supplies the TCP sequence numbers of SYN probes instead of the random
+// generator (verification builds only): it lets a test place a run at the 32-bit wrap.
+var verifSeqSource atomic.Pointer[func() uint32]
+
+// VerifSetSeqSource installs (or, with nil, removes) the sequence-number source.
+func VerifSetSeqSource(f func() uint32) {
+	if f == nil {
+		verifSeqSource.Store(nil)
+		return
+	}
+	verifSeqSource.Store(&f)
+}
+
+func verifSeqNumActive() bool { return verifSeqSource.Load() != nil }
+
+func verifSeqNum(v uint32) uint32 {
+	if f := verifSeqSource.Load(); f != nil {
+		return (*f)()
+	}
+	return v
+}
